@@ -255,7 +255,9 @@ func runC27(c *core.Ctx) {
 			}
 		}
 		// error return <=> counter <= 0
-		errRets := returnsWith(f, 0, func(e ast.Expr) bool { return !core.IsNil(f.Info(), e) && isCallTo(f, e, "errors.New", "fmt.Errorf") != nil })
+		errRets := returnsWith(f, 0, func(e ast.Expr) bool {
+			return !core.IsNil(f.Info(), e) && isCallTo(f, e, "errors.New", "fmt.Errorf") != nil
+		})
 		c.ExpectAtLeast("error returns of CloseFn", len(errRets), 1)
 		for _, rp := range errRets {
 			ok, _ := f.GuardedBy(rp, lin("counter <= 0"))
